@@ -19,13 +19,18 @@ func init() { props["C10"] = runC10 }
 
 // c10Case is one recorded / replayable case.
 type c10Case struct {
-	Kind  string        `json:"kind"` // acct | tx | ...
-	Acct  *c10Acct      `json:"acct,omitempty"`
-	Tx    *c10Tx        `json:"tx,omitempty"`
-	Order *c10Order     `json:"order,omitempty"`
-	Snap  *c10Snap      `json:"snap,omitempty"`
-	Batch *c10BatchCase `json:"batch,omitempty"`
-	Conc  *c10ConcCase  `json:"conc,omitempty"`
+	Kind string   `json:"kind"` // acct | tx | ...
+	Acct *c10Acct `json:"acct,omitempty"`
+	// acct-stale: Acct = as first added (the stale caller struct), Acct2 = full overwrite
+	// applied next, Acct3 = source of the partial (value/expiry/height hint) update
+	Acct2  *c10Acct      `json:"acct2,omitempty"`
+	Acct3  *c10Acct      `json:"acct3,omitempty"`
+	Tx     *c10Tx        `json:"tx,omitempty"`
+	Order  *c10Order     `json:"order,omitempty"`
+	Snap   *c10Snap      `json:"snap,omitempty"`
+	Batch  *c10BatchCase `json:"batch,omitempty"`
+	Conc   *c10ConcCase  `json:"conc,omitempty"`
+	Ticket *c10Ticket    `json:"ticket,omitempty"`
 	// raw bytes for decode-only (malformed) cases
 	Raw string `json:"raw,omitempty"`
 }
@@ -209,7 +214,9 @@ func (c *c10Run) acctDB(n int) {
 	defer func() { db.Close(); os.RemoveAll(path) }()
 
 	shadow := map[string]*c10Acct{}
+	first := map[string]*c10Acct{}
 	var order []string
+	var staleReplay *c10Case
 	checkAll := func(step string, written string) {
 		for _, k := range order {
 			want := shadow[k].build()
@@ -227,8 +234,12 @@ func (c *c10Run) acctDB(n int) {
 					key = "C10/acct-db-crosstalk"
 				}
 				r.Count("oracle/violation")
+				var rp interface{} = c10Case{Kind: "acct", Acct: shadow[k]}
+				if staleReplay != nil && k == written {
+					rp = *staleReplay
+				}
 				r.Violate(fmt.Sprintf("%s (%s): wrote %s, read %s", what, step, renderAcct(want), got),
-					key, c10Case{Kind: "acct", Acct: shadow[k]})
+					key, rp)
 			}
 			if k == written {
 				raw := db.VerifC10RawAccount(unhexOr(k))
@@ -262,6 +273,7 @@ func (c *c10Run) acctDB(n int) {
 				continue
 			}
 			shadow[spec.TraderKey] = spec
+			first[spec.TraderKey] = spec
 			order = append(order, spec.TraderKey)
 			r.Count("acctdb/add")
 			checkAll("add", spec.TraderKey)
@@ -278,6 +290,22 @@ func (c *c10Run) acctDB(n int) {
 				a.TraderKey = tk
 			}
 			cur := shadow[k].build()
+			staleReplay = nil
+			if r.Rng.Intn(2) == 0 {
+				staleReplay = &c10Case{Kind: "acct-stale", Acct: first[k], Acct2: shadow[k], Acct3: spec}
+				// a PARTIAL modifier (value, expiry, height hint – as the account manager's
+				// modifiers do) issued with a STALE caller struct (the account as it was
+				// first added): the stored record is what must be modified, not the
+				// caller's copy
+				ns := *shadow[k]
+				ns.Value, ns.Expiry, ns.HeightHint = spec.Value, spec.Expiry, spec.HeightHint
+				spec = &ns
+				mod = func(a *account.Account) {
+					a.Value, a.Expiry, a.HeightHint = nv.Value, nv.Expiry, nv.HeightHint
+				}
+				cur = first[k].build()
+				r.Count("acctdb/update-partial-stale-struct")
+			}
 			if err := db.UpdateAccount(cur, mod); err != nil {
 				r.Count("acct/db-update-error")
 				continue
@@ -291,6 +319,44 @@ func (c *c10Run) acctDB(n int) {
 			r.Count("acctdb/reopen")
 			checkAll("reopen", "")
 		}
+	}
+}
+
+// acctStaleFixed replays: add Acct; overwrite everything with Acct2 (fresh struct);
+// partial update (value, expiry, height hint of Acct3) issued with the stale
+// struct Acct; the stored record must be Acct2 with those three fields changed.
+func (c *c10Run) acctStaleFixed(cs *c10Case) {
+	r := c.r
+	c.nDB++
+	path := filepath.Join(c.dir, fmt.Sprintf("as%d", c.nDB))
+	db := c.openDB(path)
+	defer db.Close()
+	if db.AddAccount(cs.Acct.build()) != nil {
+		return
+	}
+	v2 := cs.Acct2.build()
+	if db.UpdateAccount(cs.Acct.build(), func(a *account.Account) {
+		tk := a.TraderKey
+		*a = *v2
+		a.TraderKey = tk
+	}) != nil {
+		return
+	}
+	v3 := cs.Acct3.build()
+	if db.UpdateAccount(cs.Acct.build(), func(a *account.Account) {
+		a.Value, a.Expiry, a.HeightHint = v3.Value, v3.Expiry, v3.HeightHint
+	}) != nil {
+		return
+	}
+	want := *cs.Acct2
+	want.TraderKey, want.Family, want.Index = cs.Acct.TraderKey, cs.Acct.Family, cs.Acct.Index
+	want.Value, want.Expiry, want.HeightHint = cs.Acct3.Value, cs.Acct3.Expiry, cs.Acct3.HeightHint
+	y, err := db.Account(v2.TraderKey.PubKey)
+	r.Evaluations++
+	if err != nil || renderAcct(y) != renderAcct(want.build()) {
+		r.Count("oracle/violation")
+		r.Violate("partial update issued with a stale account struct did not modify the stored record",
+			"C10/acct-db-roundtrip", *cs)
 	}
 }
 
@@ -401,6 +467,10 @@ func runC10(r *Run) {
 			if cs.Acct != nil {
 				c.acctDirect(cs.Acct, "fixed")
 			}
+		case "acct-stale":
+			if cs.Acct != nil && cs.Acct2 != nil && cs.Acct3 != nil {
+				c.acctStaleFixed(&cs)
+			}
 		case "tx":
 			if cs.Tx != nil {
 				c.txDirect(cs.Tx)
@@ -408,6 +478,10 @@ func runC10(r *Run) {
 		case "snap":
 			if cs.Snap != nil {
 				c.snapDirect(cs.Snap, "fixed")
+			}
+		case "template":
+			if cs.Order != nil && cs.Ticket != nil {
+				c.templateFixed(cs.Ticket, cs.Order)
 			}
 		case "conc":
 			if cs.Conc != nil {
@@ -461,9 +535,13 @@ func runC10(r *Run) {
 			n := 4 + r.Rng.Intn(8)
 			c.orderDB(n)
 			i += n
-		case x < 66:
+		case x < 63:
 			c.batchDB(c.genBatchCase())
 			i += 10
+		case x < 66:
+			n := 4 + r.Rng.Intn(6)
+			c.templateDB(n)
+			i += n
 		case x < 71:
 			c.orderMalformed()
 			i++
